@@ -505,6 +505,39 @@ def _memo(ctx, nz):
                        'under ALL(demand <= recorded), by the demand '
                        'itself')
     ctx.require(count >= 2, 'memo decisions of the feasibility tracker')
+    # the memo is valid for one walk over one partition's queue: the shapes
+    # it records do not carry the partition (an allocation's constraints are
+    # frozen before its label is set), so "a smaller instance of this shape
+    # did not fit" says nothing about another partition's servers.  The
+    # routine that consults it therefore creates its own, unconditionally.
+    cell = ctx.index.get_class(K.SCHED, 'Cell')
+    users = []
+    for func in cell.live_methods():
+        recvs = set(K.recv_text(c) for c in K.calls(func.node)
+                    if K.is_meth(c, 'feasible') and
+                    K.recv_text(c) and K.recv_text(c) != 'self')
+        for recv in sorted(recvs):
+            users.append(func)
+            makers = [s for s in K.walk_no_nested(func.node)
+                      if isinstance(s, ast.Assign) and
+                      N.txt(s.targets[0]) == recv]
+            graph = ctx.cfg(func)
+            mnodes = [n for n in graph.nodes if n.kind == 'stmt' and
+                      n.ast in makers]
+            fresh = len(makers) == 1 and isinstance(
+                makers[0].value, ast.Call) and \
+                K.callee_text(makers[0].value).endswith(
+                    'PlacementFeasibilityTracker') and \
+                recv not in func.params() and bool(mnodes) and \
+                K.find_path(graph.entry, [graph.exit],
+                            cut_node=lambda n: n in mnodes,
+                            follow_exc=False) is None
+            ctx.ob('C02.4', func, makers[0] if makers else None, fresh,
+                   'the feasibility memo consulted by %s is created by that '
+                   'walk itself, on every path (one memo per partition '
+                   'queue, never one handed in)' % func.name,
+                   construct='memo scope in %s' % func.name)
+    ctx.require(users, 'user of the feasibility memo in Cell')
     return tracker
 
 
@@ -927,6 +960,12 @@ def check(ctx):
     from . import c04
     with ctx.shared({'C04': 'C02.7'}):
         c04._counters(ctx)
+    # shared with C05.2: an instance that is deleted hands its identity back
+    # whether it is placed or not (else the pool shrinks for good and a
+    # fitting member of the group stays pending)
+    from . import c05
+    with ctx.shared({'C05': 'C02.6'}):
+        c05._model_removal(ctx)
 
 
 _S = 'lib/python/treadmill/scheduler/__init__.py'
